@@ -369,6 +369,12 @@ func genFCStr(t *rapid.T, l string) PStr {
 func genUnknownField(t *rapid.T, kind int) []byte {
 	v := genValue(t, 0, rapid.IntRange(0, 6).Draw(t, "udepth"), false, false)
 	id := rapid.SampledFrom([]int16{1, 2, 3, 6, 1, 2, 3, 6, 0, 4, 5, 7, 255, 256, -1, 32767, -32768}).Draw(t, "uid")
+	switch rapid.IntRange(0, 3).Draw(t, "uidKind") {
+	case 0: // an id that equals a known id in its low byte only
+		id = rapid.SampledFrom([]int16{1, 2, 3, 6}).Draw(t, "uidLow") + 256*int16(rapid.IntRange(-128, 127).Draw(t, "uidHigh"))
+	case 1:
+		id = rapid.Int16().Draw(t, "uidAny")
+	}
 	if isKnownPair(kind, id, v.T) {
 		id = 99
 	}
@@ -464,7 +470,7 @@ func TestC11_Permutations(t *testing.T) {
 			for _, perm := range permutations(nk) {
 				for _, ty := range ref.Types {
 					for gap := 0; gap <= nk; gap++ {
-						for _, id := range []int16{99, 1, 2, 3, 6} {
+						for _, id := range []int16{99, 1, 2, 3, 6, 257, 258, 259, 262, -255, 0x7f01, 0x0106, -0x7ffa} {
 							if isKnownPair(kind, id, ty) {
 								continue
 							}
